@@ -30,8 +30,8 @@ TRUSTED = ["the C3 order (space.bases / SpaceGraph.get_mro) is an INPUT of the m
            "(C3 itself is property C03)",
            "harness: drivers/relref.py (observation through ReferenceProxy / attribute access / fullname), c10model.py "
            "(generator-side mirror that decides which histories avoid recorded defects)"]
-ASSUMPTIONS = ["histories avoid the triggers of the recorded defects D15 D19 suffix_root stale_outer_root stale_mode "
-               "relative_change_unchecked D33_change_ref_break dangling_target dyn_direct_bases dyn_derived_nonrelative "
+ASSUMPTIONS = ["histories avoid the triggers of the recorded defects suffix_root stale_outer_root stale_mode "
+               "relative_change_unchecked dangling_target dyn_derived_nonrelative "
                "and half-way failures of add_bases/remove_bases/del (C11)",
                "existence of the corresponding object in the deriving space is a precondition (generator), not modelled in Coq"]
 REQ = ["RelRef.Model"]
